@@ -21,7 +21,9 @@ HEADS = {
 # path steps that may follow a head inside a namespace URI
 PATH = {"b": "b/",
         # only inside URI *values* (xsd:anyURI), never in names: a query string with an ampersand
-        "amp": "q?a=1&b=2"}
+        "amp": "q?a=1&b=2",
+        # a namespace that differs from its parent only by an (empty) fragment marker
+        "hash": "#"}
 
 # The application namespaces have several concrete spellings; which one a trace uses follows from its
 # salt (set_variant).  Traces replayed one after another in one process therefore bind the same
